@@ -59,22 +59,24 @@ STREAM_TRUSTED = ["hand-written Lean decoder Model/Rfc.lean (from RFC 9639) and 
 
 PROPS = {
     "C01": {
-        "streams": {"quick": [("stream", ["--cases", 400, "--max-samples", 6000])],
-                    "thorough": [("stream", ["--cases", 6000, "--max-samples", 40000])],
+        "theorem_modules": ["FlacVerif.Theorems.C01", "FlacVerif.Theorems.C01Strict"],
+        "streams": {"quick": [("stream", ["--cases", 400, "--max-samples", 6000]), ("kernel", ["--cases", 150])],
+                    "thorough": [("stream", ["--cases", 6000, "--max-samples", 40000]), ("kernel", ["--cases", 3000])],
                     "search": [("stream", ["--cases", 1500, "--max-samples", 12000])]},
         "diff_prefix": ["c01."], "oracle_fields": ["o_c01"], "class_of": stream_class, "rule": STREAM_RULE,
         "trusted_base": STREAM_TRUSTED,
         "assumptions": ["float estimator output abstracted: theorems quantify over all coefficients/shifts/orders", "source contract: read_samples delivers min(block_size, remaining) samples"],
     },
     "C02": {
-        "theorem_modules": ["FlacVerif.Theorems.C02", "FlacVerif.Theorems.C02Gen"], "uses_gen": ["tables"],
-        "streams": {"quick": [("stream", ["--cases", 400, "--max-samples", 6000])],
-                    "thorough": [("stream", ["--cases", 6000, "--max-samples", 40000])],
+        "theorem_modules": ["FlacVerif.Theorems.C02", "FlacVerif.Theorems.C02Gen", "FlacVerif.Theorems.C01Strict"], "uses_gen": ["tables"],
+        "streams": {"quick": [("stream", ["--cases", 400, "--max-samples", 6000]), ("kernel", ["--cases", 30])],
+                    "thorough": [("stream", ["--cases", 6000, "--max-samples", 40000]), ("kernel", ["--cases", 300])],
                     "search": [("stream", ["--cases", 1500, "--max-samples", 12000])]},
         "diff_prefix": ["c02."], "oracle_fields": ["o_c01"], "class_of": stream_class, "rule": STREAM_RULE,
         "trusted_base": STREAM_TRUSTED, "assumptions": [],
     },
     "C03": {
+        "theorem_modules": ["FlacVerif.Theorems.C03", "FlacVerif.Theorems.C01Strict"],
         "streams": {"quick": [("stream", ["--cases", 400, "--max-samples", 6000])],
                     "thorough": [("stream", ["--cases", 6000, "--max-samples", 40000])],
                     "search": [("stream", ["--cases", 1500, "--max-samples", 12000])]},
@@ -82,8 +84,9 @@ PROPS = {
         "trusted_base": STREAM_TRUSTED, "assumptions": ["MD5 compression function trusted (executable, cross-checked)"],
     },
     "C04": {
-        "streams": {"quick": [("stream", ["--cases", 300, "--max-samples", 6000]), ("stream", ["--cases", 300, "--max-samples", 1200, "--focus", "residues"])],
-                    "thorough": [("stream", ["--cases", 4000, "--max-samples", 40000]), ("stream", ["--cases", 3000, "--max-samples", 2000, "--focus", "residues"])],
+        "theorem_modules": ["FlacVerif.Theorems.C04", "FlacVerif.Theorems.C01Strict"],
+        "streams": {"quick": [("stream", ["--cases", 300, "--max-samples", 6000]), ("stream", ["--cases", 300, "--max-samples", 1200, "--focus", "residues"]), ("stream", ["--cases", 5, "--max-samples", 36000, "--focus", "manyframes"])],
+                    "thorough": [("stream", ["--cases", 4000, "--max-samples", 40000]), ("stream", ["--cases", 3000, "--max-samples", 2000, "--focus", "residues"]), ("stream", ["--cases", 150, "--max-samples", 80000, "--focus", "manyframes"])],
                     "search": [("stream", ["--cases", 1500, "--max-samples", 2000, "--focus", "residues"])]},
         "diff_prefix": ["c04."], "oracle_fields": ["o_c04"], "class_of": stream_class,
         "rule": STREAM_RULE + "; plus a residue sweep: block sizes 32/33/64 with every input length 0..2bs (every residue of len mod bs)",
@@ -128,7 +131,7 @@ KERNEL_RULE = ("kernel stream: integer kernels called through the cfg(flacenc_ve
 PROPS.update({
     "C08": {
         "theorem_modules": ["FlacVerif.Theorems.C08", "FlacVerif.Theorems.C12"],
-        "streams": {"quick": [("comp", ["--cases", 120]), ("kernel", ["--cases", 30]), ("stream", ["--cases", 120, "--max-samples", 4000])],
+        "streams": {"quick": [("comp", ["--cases", 120]), ("kernel", ["--cases", 30]), ("stream", ["--cases", 120, "--max-samples", 4000]), ("stream", ["--cases", 3, "--max-samples", 36000, "--focus", "manyframes"])],
                     "thorough": [("comp", ["--cases", 3000]), ("kernel", ["--cases", 200]), ("stream", ["--cases", 3000, "--max-samples", 40000])],
                     "search": [("comp", ["--cases", 1500]), ("stream", ["--cases", 800, "--max-samples", 9000])]},
         "profiles": {"quick": ["release", "dev"], "thorough": ["release", "dev"]},
@@ -340,7 +343,7 @@ PROPS.update({
         "streams": {"quick": [("history", ["--cases", 60]), ("kernel", ["--cases", 120])],
                     "thorough": [("history", ["--cases", 3000]), ("kernel", ["--cases", 1500])],
                     "search": [("history", ["--cases", 600])]},
-        "diff_prefix": ["c10.", "mirror.search", "c01.diffs", "c01.lpcerr"], "oracle_fields": ["o_c10"], "rule": HISTORY_RULE + " || " + KERNEL_RULE,
+        "diff_prefix": ["c10.", "c13.cost", "c01.diffs", "c01.lpcerr"], "oracle_fields": ["o_c10"], "rule": HISTORY_RULE + " || " + KERNEL_RULE,
         "trusted_base": ["Model/Scratch.lean: hand model of every reusable!/reuse! site with the STALE buffer as an explicit argument (Vec::resize keeps the old prefix, SimdVec lanes past len, FrameBuf::resize keeps filled_size), tied to the code through the pure models it is proved equal to (diffs, computeError, search: kernel stream, called on one thread with varying sizes, i.e. with genuinely stale buffers) and through the window fingerprint comparison",
                          "float window VALUES and the LPC estimator's float buffers are not modelled: only which (size, window) a cache entry was computed for, and that the cast/windowed/correlation buffers are fully overwritten"],
         "assumptions": ["stable (fakesimd) build; the simd-nightly path of weighted_delay_prod_sum_impl splits by heap alignment (read only, noted in DESIGN.md)"],
